@@ -261,7 +261,9 @@ impl CompiledItem {
                         let replaced = arg
                             .replace('\\', "\\\\")
                             .replace('"', "\\\"")
-                            .replace('\n', "\\n");
+                            .replace('\n', "\\n")
+                            // NUL ends a record of the binary form
+                            .replace('\0', "\\0");
                         let arg = fix_arg_if_needed(&replaced)?;
                         args.push_str(arg.as_ref());
                     }
